@@ -122,6 +122,45 @@ Proof.
     rewrite ?S; reflexivity.
 Qed.
 
+(** quiescence rule (tie to [Stream::is_quiesced] through the generated
+    conjuncts): for EVERY stream state the implementation's test is exactly
+    "both directions over AND nothing buffered toward either peer" — dropping
+    one conjunct in the source (e.g. the backend-side storage test) makes this
+    fail *)
+Theorem quiesced_rule :
+  forall s, (forall d, ph d <= 3) -> is_quiesced s = quiesced_spec s.
+Proof.
+  intros [st [pf hf] [pb hb]] B. pose proof (B (mkdir pf hf)) as Bf. pose proof (B (mkdir pb hb)) as Bb.
+  cbn [ph] in Bf, Bb.
+  unfold is_quiesced, quiesced_spec, dir_ok, phase_over, quiesced_both, quiesced_front, quiesced_back.
+  cbn [sfront sback ph held fst snd negb orb existsb].
+  destruct pf as [|[|[|[|pf]]]]; try lia; destruct pb as [|[|[|[|pb]]]]; try lia;
+    cbn [Nat.eqb orb andb]; destruct (hf =? 0), (hb =? 0); reflexivity.
+Qed.
+
+(** a soft stop closes an HTTP/2 session only when no stream is still linked
+    to a backend, every unlinked stream is over in both directions with nothing
+    buffered toward either peer, and the frontend has nothing left to write *)
+Theorem soft_stop_spares_open_streams :
+  forall ss pw, (forall s d, In s ss -> ph d <= 3) -> mux_can_stop ss pw = true ->
+    pw = false /\
+    forall s, In s ss -> hstate s <> SLinked /\ (hstate s = SUnlinked -> quiesced_spec s = true).
+Proof.
+  intros ss pw B H. unfold mux_can_stop in H. apply andb_prop in H. destruct H as [H P].
+  split; [destruct pw; [discriminate|reflexivity]|].
+  intros s I. rewrite forallb_forall in H. specialize (H s I). unfold stream_lets_stop in H.
+  split.
+  - intros L. rewrite L in H. discriminate.
+  - intros U. rewrite U in H. rewrite <- quiesced_rule; [exact H|]. intros d. exact (B s d I).
+Qed.
+
+Example quiesced_rule_nonvacuous :
+  (* the m3 shape: the response is complete on the backend side, 4000 bytes are still held toward the client *)
+  is_quiesced (mkstr SUnlinked (mkdir 3 0) (mkdir 3 4000)) = false /\
+  mux_can_stop [mkstr SUnlinked (mkdir 3 0) (mkdir 3 4000)] false = false /\
+  mux_can_stop [mkstr SUnlinked (mkdir 3 0) (mkdir 3 0); mkstr SRecycle (mkdir 1 7) (mkdir 1 7)] false = true.
+Proof. vm_compute. repeat split; reflexivity. Qed.
+
 Example manifest_fits_nonvacuous :
   let l := mkl (repeat (repeat 49%N 47) 50) (repeat (repeat 49%N 47) 50) (repeat (repeat 49%N 21) 50) (repeat (repeat 49%N 21) 50) in
   count l = max_fds_out /\ length (encode l) = 7 * 1000 + 202.
